@@ -48,6 +48,12 @@ def tmpl(k: int, base: int) -> List[Dict[str, Any]]:
     if k == 1:
         return [kineto.cpu_op("aten::b", base + 1, 9, ext=0), kineto.cpu_op("aten::a", base + 2, 2, ext=1),
                 kineto.kernel("k2", base + 3, 1, 7, 6)]
+    if k in (4, 5):  # ~75 rank-specific names each: every rank fits an 8-bit id range, their union does not
+        evs = [kineto.cpu_op("aten::a", base + 1, 400, ext=0)]
+        for j in range(75):
+            evs.append(kineto.cpu_op(f"aten::rank{k}_op{j}", base + 2 + 4 * j, 3, ext=j + 1))
+        evs.append(kineto.kernel(f"k{k}", base + 9, 3, 7, 5))
+        return evs
     if k == 3:  # vocabulary = superset of template 0's and of template 1's
         return [kineto.cpu_op("aten::b", base + 1, 12, ext=0), kineto.cpu_op("aten::a", base + 2, 2, ext=1),
                 kineto.kernel("k2", base + 5, 1, 9, 6), kineto.kernel("k1", base + 7, 3, 7, 5)]
@@ -117,7 +123,13 @@ def worlds(tier: str, stats: Dict[str, Any]) -> Iterator[Any]:
                         plans.append([list(pa), list(pb)])
             else:
                 for i in range(R):
-                    for p in itertools.permutations(range(len(vocs[i]))):
+                    allp = list(itertools.permutations(range(len(vocs[i]))))
+                    if len(vocs[i]) > 5:   # 6! numberings of one rank: keep reversal, rotations and transpositions of neighbours
+                        n_ = len(vocs[i])
+                        ident = list(range(n_))
+                        allp = [ident, ident[::-1]] + [ident[r:] + ident[:r] for r in range(1, n_)] + \
+                               [ident[:q] + [ident[q + 1], ident[q]] + ident[q + 2:] for q in range(n_ - 1)]
+                    for p in allp:
                         for other in ("sorted", "reversed"):
                             plans.append([list(p) if j == i else (list(range(len(vocs[j]))) if other == "sorted" else list(range(len(vocs[j])))[::-1])
                                           for j in range(R)])
@@ -130,6 +142,9 @@ def worlds(tier: str, stats: Dict[str, Any]) -> Iterator[Any]:
                     if sc is not None and not b["full_product"] and (pi % 16) != (si % 16) and pi > 3:
                         continue
                     yield dict(mode="decode", tset=tset, ids=list(ids), plan=plan, sched=sc)
+    stats["transitions"] += 2
+    yield dict(mode="decode", tset=[4, 5], ids=[0, 1], plan=[None, None], sched=None)
+    yield dict(mode="decode", tset=[5, 4], ids=[0, 3], plan=[None, None], sched=[[1, 0], 2])
     # (c)
     for k in CORPUS:
         for part in range(BUNDLE_PARTS):
@@ -293,8 +308,8 @@ def load_with(ranks_events: Dict[int, List[Dict[str, Any]]], plan, sched, names=
 def plan_for(events_list, perms) -> Dict[Any, Any]:
     plan = {}
     for evs, p in zip(events_list, perms):
-        v = tuple(vocab(evs))
-        plan[v] = p
+        if p is not None:
+            plan[tuple(vocab(evs))] = p
     return plan
 
 
@@ -327,7 +342,7 @@ def check(world) -> Dict[str, Any]:
                 got = {int(i): (st[int(n)], st[int(c)]) for i, n, c in zip(df["index"], df["name"], df["cat"])}
                 if got != want:
                     viol.append((f"decode/rows-decode-to-wrong-strings/{tag}", dict(rank=rid, got=got, expected=want, world=world)))
-        nontriv = world["plan"] != [sorted(p) for p in world["plan"]] or world["sched"] is not None
+        nontriv = any(p is None or p != sorted(p) for p in world["plan"]) or world["sched"] is not None
         return dict(viol=_dedupe(viol), nontrivial=nontriv, outcome=(tuple(st),), execs=1)
     if mode == "bundle":
         k = world["k"]
